@@ -109,7 +109,7 @@ def stream_eval_mtx(R, tier, seed):
                 meta.append((cid, ["vel_mtx"], {"comp": "EvalVelMtx", "kind": kind, "nx": nx, "ny": ny, "ground": ground, "alpha_deg": alpha_deg, "h": h}))
                 R.count("eval_mtx/%s/ground=%s" % (kind, ground)); R.mark("evm", kind, nx, ny, ground)
                 R.sample({"component": "EvalVelMtx", "kind": kind, "nx": nx, "ny": ny, "ground": ground, "alpha_deg": alpha_deg})
-    res, errs = cc.run(shard=6)
+    res, errs = cc.run(shard=(6 if tier == "quick" else 1))      # thorough: the big lattices one per file, so that they run in parallel
     for cid, labels, desc in meta:
         judge(S, res.get(cid), labels, desc)
     S["coq_errors"] = errs
